@@ -113,6 +113,13 @@ func collect(fset *token.FileSet, path string, f *ast.File) []mutant {
 					add(x.OpPos, "binop", fmt.Sprintf("%s -> %s", orig, a), func() { x.Op = a })
 				}
 			}
+		case *ast.KeyValueExpr:
+			// `LineNumber: 0` in the "no signal" value carries no meaning: mutating it is equivalent
+			if id, ok := x.Key.(*ast.Ident); ok && id.Name == "LineNumber" {
+				if l, ok := x.Value.(*ast.BasicLit); ok && l.Value == "0" {
+					return false
+				}
+			}
 		case *ast.BasicLit:
 			if x.Kind == token.INT {
 				orig := x.Value
